@@ -106,3 +106,38 @@ K_MUTATIONS = [
 
 def k_docs():
     return [doc.parse(t) for t in K_DOCS]
+
+
+# ---- schema W: one field per wrapper shape x leaf kind -----------------------------------------------------------------
+W_SHAPES_1 = ["T", "T!", "[T]", "[T]!", "[T!]", "[T!]!"]
+W_SHAPES_2 = ["[[T]]", "[[T]]!", "[[T]!]", "[[T]!]!", "[[T!]]", "[[T!]]!", "[[T!]!]", "[[T!]!]!"]
+W_SHAPES_3 = ["[[[T]]]", "[[[T!]]!]", "[[[T]!]]!", "[[[T!]!]!]!"]
+W_KINDS = ["Int", "Float", "String", "ID", "Boolean", "Color", "Tag", "O", "I", "U"]
+
+
+def w_field_name(kind, shape_index):
+    return "f_%s_%d" % (kind, shape_index)
+
+
+def w_sdl(shapes):
+    lines = []
+    for k in W_KINDS:
+        for i, sh in enumerate(shapes):
+            lines.append("  %s: %s" % (w_field_name(k, i), sh.replace("T", k)))
+    return """
+enum Color { RED GREEN BLUE }
+scalar Tag
+interface I { x: Int }
+type O implements I { x: Int y: String }
+type O2 implements I { x: Int z: Int! }
+type O3 { x: Int }
+union U = O | O3
+type Query {
+%s
+}
+""" % "\n".join(lines)
+
+
+def w_schema(tier="quick"):
+    shapes = W_SHAPES_1 + W_SHAPES_2 + (W_SHAPES_3 if tier == "thorough" else [])
+    return S.parse_sdl(w_sdl(shapes)), shapes
